@@ -148,6 +148,46 @@ fn be(v: u32) -> Vec<u8> {
     v.to_be_bytes().to_vec()
 }
 
+/// Stage S2 for messages: reference bodies printed by TLC from Gen_Msg.tla ({"intent","ty","body"} per line).  Each body is
+/// handed to the real to_rtmp_message under its own type id (and under the AMF3 aliases 15 / 17 for data / command bodies);
+/// what came back is converted again with the real from_rtmp_message.
+pub fn generate_from_file(file: &str, shard: u64, nshards: u64, path: &str) -> Value {
+    quiet_panics();
+    let mut t = Trace::create(path);
+    let mut rng = Rng::new(4242 ^ shard);
+    let text = std::fs::read_to_string(file).expect("messages file");
+    let mut cases = 0usize;
+    let mut n = 0usize;
+    for (i, line) in text.lines().enumerate() {
+        if line.trim().is_empty() || (i as u64) % nshards != shard {
+            continue;
+        }
+        let v: Value = serde_json::from_str(line).expect("message json");
+        let ty = v["ty"].as_u64().unwrap() as u8;
+        let body: Vec<u8> = v["body"].as_array().unwrap().iter().map(|b| b.as_u64().unwrap() as u8).collect();
+        n += 1;
+        let mut variants: Vec<(u8, Vec<u8>)> = vec![(ty, body.clone())];
+        if ty == 18 { variants.push((15, body.clone())); }
+        if ty == 20 {
+            variants.push((17, body.clone()));
+            let mut b0 = vec![0u8];
+            b0.extend_from_slice(&body);
+            variants.push((17, b0));
+        }
+        for (vty, vbody) in variants {
+            t.emit(&to_message_event("conf", vty, &vbody, v["intent"].clone()));
+            cases += 1;
+            let p = MessagePayload { timestamp: RtmpTimestamp::new(7), type_id: vty, message_stream_id: 3, data: Bytes::from(vbody.clone()) };
+            if let Ok(Ok(m2)) = catch_unwind(AssertUnwindSafe(|| p.to_rtmp_message())) {
+                t.emit(&to_payload_event(m2, &mut rng));
+                cases += 1;
+            }
+        }
+    }
+    t.flush();
+    json!({"kind":"gen","messages":n,"cases":cases,"runs":cases,"lines":t.line,"path":path})
+}
+
 pub fn generate(tier: &str, seed: u64, shard: u64, nshards: u64, path: &str) -> Value {
     quiet_panics();
     let mut t = Trace::create(path);
